@@ -81,3 +81,48 @@ inductive Mode where
   | thread
   | process
 deriving DecidableEq, Repr, Inhabited
+
+/-- an optimizer instance as `OptimizationAbstract.optimize` sees it: the framework's own attributes by name, and `priv` for
+everything else (the subclass's private attributes and numpy's global generator, which `np.random.seed` re-initialises). -/
+structure Self (R σ τ : Type) where
+  config : Option (StopCfg R)
+  debug : Bool
+  mode : Mode
+  workers : Int
+  task : Option τ
+  population : List Agent
+  best_agent : Option Agent
+  worst_agent : Option Agent
+  current_cycle : Int
+  errors : List R
+  error_diffs : List R
+  priv : σ
+
+/-- the overridable hooks `optimize` calls, each an arbitrary (possibly raising) transformer of the whole instance, and the
+opaque library calls: `ModeSolver(mode)` and `np.random.seed(seed)`. -/
+structure Hooks (R σ τ : Type) where
+  before_initialization : Self R σ τ → Except Err (Self R σ τ)
+  init_population : Self R σ τ → Except Err (Self R σ τ)
+  after_initialization : Self R σ τ → Except Err (Self R σ τ)
+  optimization_step : Self R σ τ → Except Err (Self R σ τ)
+  parse_mode : String → Except Err Mode
+  np_random_seed : Int → σ → σ
+  task_minmax : τ → Dir
+  task_seed : τ → Int
+
+namespace Py
+/-- reading an attribute of an `Optional[...]` attribute: `AttributeError` on `None` -/
+def attrOf (o : Option α) : Except Err α :=
+  match o with
+  | some a => .ok a
+  | none => .error .attributeError
+end Py
+
+namespace Py
+/-- `int(x)` on a double: truncation toward zero; `ValueError` on NaN, `OverflowError` on an infinity -/
+def intOfNum (x : Num) : Except Err Int :=
+  match x with
+  | .fin q => .ok (Num.truncRat q)
+  | .nan => .error .valueError
+  | _ => .error .overflowError
+end Py
